@@ -174,3 +174,33 @@ def mutants(s, alphabet, rnd, k=6):
         else:
             out.append(s + rnd.choice(alphabet))
     return out
+
+
+# Characters a string method treats like an ASCII one although a pattern's class does not (or the other way round):
+# str.isdigit() is true for superscripts and circled digits that \d refuses; str.upper()/lower()/casefold() map the long s,
+# the dotless i, the Kelvin sign and the ligatures onto ASCII letters; NFKC folds full-width forms.
+LOOKALIKE = {
+    '0': '⁰⓪', '1': '¹①⒈', '2': '²②', '3': '³③', '4': '⁴④', '5': '⁵⑤',
+    '6': '⁶⑥', '7': '⁷⑦', '8': '⁸⑧', '9': '⁹⑨',
+    's': 'ſ', 'S': 'ſ', 'k': 'K', 'K': 'K', 'i': 'ı', 'I': 'İ',
+    'm': 'ｍ', 'M': 'Ｍ', 'h': 'ｈ', 'H': 'Ｈ', 'x': '×ｘ', 'X': '×Ｘ',
+    '.': '．․', 'g': 'ｇ', 'G': 'Ｇ', 't': 'ｔ', 'T': 'Ｔ',
+}
+
+
+def lookalikes(s, rnd=None, cap=6):
+    """Strings that differ from s only by look-alike characters: one position at a time (up to cap of them) and all at once."""
+    pos = [i for i, ch in enumerate(s) if ch in LOOKALIKE]
+    if not pos:
+        return []
+    if rnd is not None and len(pos) > cap:
+        pos = rnd.sample(pos, cap)
+    out = []
+    for i in pos[:cap]:
+        for sub in LOOKALIKE[s[i]][:2]:
+            out.append(s[:i] + sub + s[i + 1:])
+    out.append(''.join(LOOKALIKE[ch][0] if ch in LOOKALIKE else ch for ch in s))
+    digs = ''.join(LOOKALIKE[ch][0] if ch.isdigit() and ch in LOOKALIKE else ch for ch in s)
+    if digs != s:
+        out.append(digs)
+    return out
